@@ -51,12 +51,12 @@ const benign = "st-1"
 var sigma = []string{"a", " ", "+", "/", "=", "&", "%", "#", "?", "\"", "'", "<", ">", "\\", ";", ":", "@", "%41", "é", "😀", "\n", "\x00", "\r", "\t", "`"}
 
 var specials = []string{
-	"dGVzdA+/xyz==",             // standard base64 with + / =
+	"dGVzdA+/xyz==",                // standard base64 with + / =
 	"\"><script>alert(1)</script>", // attribute break-out
 	"javascript:alert(1)",
 	"' onfocus='x",
-	"&quot;&#34;&lt;",  // text that looks like entities
-	"%2B%252B%",        // text that looks like escapes
+	"&quot;&#34;&lt;",   // text that looks like entities
+	"%2B%252B%",         // text that looks like escapes
 	"a=b&code=evil#x?y", // parameter smuggling
 	"\r\nSet-Cookie: x=y",
 	"</form><form action=\"https://evil.example/\">",
